@@ -42,6 +42,7 @@ type report struct {
 	AccessSites  []string       `json:"access_sites"`
 	FreshSkipped []string       `json:"fresh_local_accesses_skipped"`
 	Problems     []string       `json:"problems"`
+	Degraded     []string       `json:"degraded"`
 	overlay      map[string]string
 }
 
@@ -156,7 +157,8 @@ func run(repo, out string, rep *report) error {
 		})
 	}
 	if rep.MutexField == "" {
-		rep.Problems = append(rep.Problems, "cannot find a sync.RWMutex/sync.Mutex field in the struct that holds `values` in package env; the lockset oracle cannot be attached")
+		// not fatal: linearizability, deadlock and the other oracles do not need the probes; the evidence says so
+		rep.Degraded = append(rep.Degraded, "no sync.RWMutex/sync.Mutex field found in the struct that holds `values` in package env: lockset probes NOT attached")
 	}
 
 	for _, fi := range files {
